@@ -173,6 +173,7 @@ func runC10(w *core.World, r *core.Report) {
 	r.Rule("R5", "session prefix exactly for STATE, USERDATA; language suffix exactly for MENU, TEMPLATE, STATICLOAD")
 	r.Rule("R6", "DbResource: mustSafe() precedes every db.Get and panics unless Safe()")
 	r.Rule("R7", "SetSession/SetPrefix/SetLanguage store their argument on every path")
+	r.Rule("R8", "memory backend: presence of a key is decided by the map's comma-ok result, never by the value")
 
 	bes := dbBackends(w, r)
 	r.Floor("R1", "db.Db implementations in the library", len(bes), 3)
@@ -444,6 +445,26 @@ func runC10(w *core.World, r *core.Report) {
 
 	// ---- R7 -----------------------------------------------------------------------------------
 	checkContextSetters(w, r, "R7")
+
+	// ---- R8 -----------------------------------------------------------------------------------
+	for _, be := range bes {
+		nl := 0
+		for _, b := range be.get.Blocks {
+			for _, in := range b.Instrs {
+				lk, ok := in.(*ssa.Lookup)
+				if !ok {
+					continue
+				}
+				if _, isMap := lk.X.Type().Underlying().(*types.Map); !isMap {
+					continue
+				}
+				nl++
+				r.Check(lk.CommaOk, "R8", fmt.Sprintf("%s.%s.Get: map lookup decides presence by comma-ok", be.pkg, be.typ), lk.Pos(), "v, ok := store[k]",
+					"a stored key is treated as missing depending on its value (an empty value no longer shadows the default-language entry): the backends diverge")
+			}
+		}
+		_ = nl
+	}
 }
 
 func keysInt(m map[int64]bool) []int64 {
